@@ -3,10 +3,10 @@
    entries in Z[i, sqrt 2] with one common factor 1/sqrt n per object), which the harness compares entry by entry with what
    quara generates under each name.  Finite tables are decided by vm_compute (dimension and table explicit in the statement);
    tensor products of arbitrary length by induction. *)
-From Coq Require Import ZArith List Bool Arith.
+From Coq Require Import ZArith List Bool Arith Sorting.Sorted Sorting.Permutation.
 From QV.Core Require Import OF Sums Mat C17_Z8.
-From QV.Model Require Import C17_Tables.
-From QV.Proofs Require Import C17_Tables C17_Eval.
+From QV.Model Require Import C17_Tables C17_Permute.
+From QV.Proofs Require Import C17_Tables C17_Bases9 C17_Eval C17_Permute.
 Import ListNotations.
 
 (* every textbook action triple (gate, input state, output state) holds in the table algebra, as equality of density operators:
@@ -43,14 +43,21 @@ Theorem C17_unnormalised_norms :
 Proof. exact unnormalised_norms. Qed.
 Print Assumptions C17_unnormalised_norms.
 
-(* POVM tables sum to the identity (12 single names, all 2-fold product names); measurement-process tables are trace preserving *)
-Theorem C17_povm_tables_complete : Forall povm_sums_to_identity (seq 0 12) /\ Forall povm2_sums_to_identity povm_pairs.
+(* POVM tables sum to the identity (14 single names incl. the 2-qubit parity POVMs, all 2-fold product names of the 1-qubit
+   and of the 1-qutrit names); measurement-process tables are trace preserving *)
+Theorem C17_povm_tables_complete : Forall povm_sums_to_identity (seq 0 14) /\ Forall povm2_sums_to_identity povm_pairs.
 Proof. exact (conj povm_tables_complete povm_product_tables_complete). Qed.
 Print Assumptions C17_povm_tables_complete.
 
 Theorem C17_mproc_tables_trace_preserving : Forall mproc_trace_preserving (seq 0 13).
 Proof. exact mproc_tables_trace_preserving. Qed.
 Print Assumptions C17_mproc_tables_trace_preserving.
+
+(* Kraus sets and POVMs agree: each of the 13 measurement-process tables induces, outcome by outcome (sum_k K^dagger K), the
+   POVM table of the POVM name it stands for (x-type1, x-type2 -> x; ...; xxparity-type1 -> xxparity; zzparity-type1 -> zzparity) *)
+Theorem C17_mproc_tables_induce_povm_tables : Forall mproc_induces_povm (seq 0 13).
+Proof. exact mproc_tables_induce_povm_tables. Qed.
+Print Assumptions C17_mproc_tables_induce_povm_tables.
 
 (* the tables mean the same in EVERY ordered field with a square root of 2: evaluation is a ring morphism, so table
    unitarity / normalisation / triples transfer to complex matrices over F (and so to R) *)
@@ -63,10 +70,42 @@ Theorem C17_gate_unitary_in_any_field : forall (F : OF) (s2 : F) (g : tgate),
 Proof. exact gate_unitary_transfer. Qed.
 Print Assumptions C17_gate_unitary_in_any_field.
 
+(* ---- id bookkeeping of the multi-qubit gates (Model/C17_Permute.v: get_permutation_matrix_from_ascending_order, permute_pauli_symbol).
+   "ids[k] is for role k" (toffoli: control control target; fredkin: control swapped swapped) and the composite system orders its
+   elemental systems by ascending id.  For EVERY number of qubits, EVERY list of ids and EVERY symbol the repaired code
+   (fix toffoli-fredkin-cyclic-ids-inverted: matP^T @ indices) returns a symbol whose letter at ascending position p is the letter of
+   the role whose id is the p-th smallest; sorted(ids) is ascending and a permutation of ids; for pairwise different ids this
+   determines the output uniquely. *)
+Theorem C17_permute_fixed_spec : forall ids v, permute_spec ids v (permute_fixed ids v).
+Proof. exact permute_fixed_spec. Qed.
+Print Assumptions C17_permute_fixed_spec.
+
+Theorem C17_sorted_ids_ascending_permutation : forall ids, Sorted le (sorted_ids ids) /\ Permutation (sorted_ids ids) ids.
+Proof. exact (fun ids => conj (sorted_ids_sorted ids) (sorted_ids_perm ids)). Qed.
+Print Assumptions C17_sorted_ids_ascending_permutation.
+
+Theorem C17_permute_spec_unique : forall ids v out1 out2, NoDup ids ->
+  permute_spec ids v out1 -> permute_spec ids v out2 -> out1 = out2.
+Proof. exact permute_spec_unique. Qed.
+Print Assumptions C17_permute_spec_unique.
+
+(* [permute_coded] is permute_pauli_symbol AS CODED BEFORE fix toffoli-fredkin-cyclic-ids-inverted (matP @ indices, the inverse
+   permutation); it is NOT what the harness compares the implementation with.  It violates the specification (witness: ids [1; 2; 0],
+   symbol "iix": toffoli's target letter lands on ascending position 1 instead of 0); among the six orders of three ids it differs
+   from the repaired code exactly on the two cyclic ones. *)
+Theorem C17_permute_coded_refuted : exists ids v, NoDup ids /\ length v = length ids /\ ~ permute_spec ids v (permute_coded ids v).
+Proof. exact permute_coded_refuted. Qed.
+Print Assumptions C17_permute_coded_refuted.
+
 (* non-vacuity: the Hadamard table maps the table z0 to the table x0; the T gate (entries outside Q[i]) is unitary;
    the 2-qutrit normalised generalized Gell-Mann basis is one of the instances *)
 Example C17_example :
   triple_holds (G1 13, SQ [4], SQ [0])%nat /\ gate_unitary (gate_tbl (G1 11)) /\ In (9, 2, 3)%nat basis_instances /\
   state_normalised (state_tbl (SQ [6; 3; 0; 5]))%nat.
-Proof. split; [apply triple_holdsb_spec; reflexivity|]. split; [apply gate_unitaryb_spec; reflexivity|].
+Proof. split; [apply triple_holdsb_spec; vm_compute; reflexivity|]. split; [apply gate_unitaryb_spec; vm_compute; reflexivity|].
   split; [cbn; tauto|]. apply (proj1 C17_product_states_normalised). Qed.
+(* the repaired permute_pauli_symbol on toffoli's "iix" with ids [1; 2; 0] (controls on systems 1 and 2, target on system 0)
+   gives "xii"; with the non-contiguous ids [7; 2; 5] the target letter goes to the middle (5 is the second smallest) *)
+Example C17_permute_example :
+  permute_fixed [1; 2; 0]%nat [0; 0; 1]%nat = [1; 0; 0]%nat /\ permute_fixed [7; 2; 5]%nat [3; 0; 1]%nat = [0; 1; 3]%nat.
+Proof. split; reflexivity. Qed.
